@@ -20,6 +20,9 @@ var zzEdgeUniverse = []zzEdge{
 	{"c", "a", "r", "s"}, // incoming with inverse (a -s-> c)
 	{"a", "a", "r", ""},  // self edge
 	{"b", "c", "r", ""},  // unrelated edge among the other nodes
+	{"c", "a", "r", ""},  // second source of the same relation
+	{"b", "a", "s", "r"}, // incoming under a second relation whose inverse collides with "r" (a -r-> b)
+	{"a", "b", "s", ""},  // second relation type towards a peer (with {a,b,r} and {b,a,r}: two ways out, one way back)
 }
 
 func zzNoLiveEdge(e *Engine, dead string, what string) {
